@@ -5,6 +5,7 @@ Property theorems only (helper lemmas live in `Bourse/Lemmas`).
 import Bourse.Model.Ops
 import Bourse.Lemmas.Lifecycle
 import Bourse.Lemmas.RefTimes
+import Bourse.Lemmas.NoOverflow
 
 namespace Bourse.Props.C04
 open Bourse
@@ -120,5 +121,24 @@ example :
       .time 7, .cancel 0, .trading false, .time 9, .cap .bid 1 3 none]
     (b.orders.map fun e => (e.order.status, e.order.arr, e.order.endt)) =
       [(.cancelled, 3, 7), (.filled, 5, 5), (.rejected, 9, 9)] := by decide
+
+/-- `lifecycle_one_way` for valid histories as the property states them: a valid history followed
+by a valid, feasible continuation. -/
+theorem lifecycle_one_way_valid (t0 tick : Nat) (trading : Bool) (ops cont : List Op)
+    (h : ValidHistory t0 tick trading ops)
+    (hv' : ∀ op ∈ cont, ValidOp op) (hf' : Feasible ((Book.new t0 tick trading).run ops) cont) :
+    ∀ (i : Nat) (e : Entry), ((Book.new t0 tick trading).run ops).orders[i]? = some e →
+      ∃ e', (((Book.new t0 tick trading).run ops).run cont).orders[i]? = some e' ∧
+        Adv e.order.status e'.order.status = true ∧ e'.order.id = e.order.id ∧ e'.order.side = e.order.side ∧
+        e'.order.trader = e.order.trader ∧ e'.order.svol = e.order.svol ∧
+        (isTerminal e.order.status = true → e'.order = e.order) :=
+  lifecycle_one_way t0 tick trading h.tick_pos ops cont h.ops_valid h.noFault hv'
+    (noFault_of_feasible h.inv cont hv' hf')
+
+theorem open_orders_have_no_end_time_valid (t0 tick : Nat) (trading : Bool) (ops : List Op)
+    (h : ValidHistory t0 tick trading ops) :
+    ∀ (id : Nat) (e : Entry), ((Book.new t0 tick trading).run ops).orders[id]? = some e →
+      isTerminal e.order.status = false → e.order.endt = MAXT :=
+  open_orders_have_no_end_time t0 tick trading h.tick_pos ops h.ops_valid h.noFault
 
 end Bourse.Props.C04
